@@ -30,7 +30,7 @@ TRUSTED = [
 ]
 ASSUMPTIONS = [
     'coordinates objects have independent axes (IdentityCoordinates, diagonal AffineCoordinates) and the dimension of the dataset',
-    'derived components are added through add_component(link, label) with BinaryComponentLink chains (no identity links, no external links)',
+    'derived components are added through add_component(link, label) with BinaryComponentLink chains with at least one input (no identity links, no external links)',
     'update_id(old, new) with new already in use, update_components on derived / coordinate components (including an id that is no longer a '
     'component but still externally derivable: get_component resolves it to a helper DerivedComponent) and update_components({}) are outside the domain',
     'assigning an equal label / equal values counts as a change that happened (the call is the change): ComponentID.label = same announces a rename',
@@ -557,7 +557,9 @@ class Exec(object):
             new = [x for x in aids if x not in set(bids)]
             if aids != kept + new:
                 bad('order of the components is not stable (kept ones first in their order, new ones appended)')
-        if outcome != 'ok' and k not in ('updcomps',):
+        if outcome != 'ok':
+            if msgs and not (self.coord_removed or self.uvfd_misaligned):
+                bad('rejected call (%s) logged messages %r' % (outcome, msgs))
             if (aids != bids or after['shape'] != before['shape'] or [id(c) for c in after['pixel']] != [id(c) for c in before['pixel']]
                     or [id(c) for c in after['world']] != [id(c) for c in before['world']] or after['coords'] is not before['coords']):
                 bad('failed call (%s) changed the structure' % outcome)
@@ -984,6 +986,7 @@ def abstract_alphabet():
     A['remove_last'] = lambda t: ['remove', (t.ids('md') or [2])[-1]]
     A['reorder_rev'] = lambda t: ['reorder', list(reversed(t.ids('mdc')))]
     A['reorder_bad'] = lambda t: ['reorder', t.ids('mdc')[:-1] if t.ids('mdc') else [1]]
+    A['reorder_dup'] = lambda t: (['reorder', t.ids('mdc')[:-1] + [t.ids('mdc')[0]]] if len(t.ids('mdc')) >= 2 else None)
     A['update_id_first'] = lambda t: (['updid', (t.ids('md') or [3])[0], t.free_pool()[0]] if t.free_pool() else None)
     A['update_id_pixel'] = lambda t: (['updid', (t.ex.snapshot([])['pixel'] or [3])[0], t.free_pool()[-1]] if t.free_pool() else None)
     A['rename_first_b'] = lambda t: ['rename', (t.ids('md') or [1])[0], 1]
@@ -1173,11 +1176,75 @@ def stream_known(R):
              bound='7 hand-written histories x 2 hub modes: update_values_from_data with differing coordinate attribute names / empty target')
 
 
+def stream_malformed(R):
+    """list-taking calls with malformed arguments, small-scope exhaustive: every list over the existing ids and one foreign
+    id for reorder_components (permutations, right-length lists with duplicates, wrong lengths, foreign ids), mappings /
+    input lists with foreign ids or wrong shapes for update_components / add_component(link).  Every rejected call must
+    leave the whole structural snapshot unchanged and log nothing (oracle), and the model must agree on accept / reject."""
+    bases = [
+        ('one', 2, None, [['addnew', 0, [2]]]),
+        ('two', 2, None, [['addnew', 0, [2]], ['addnew', 1, [2]]]),
+        ('two-nohub', 0, None, [['addnew', 0, [2]], ['addnew', 1, [2]]]),
+        ('2d', 2, None, [['addnew', 0, [2, 2]]]),
+        ('coords+derived', 2, [1, 0, 1], [['addnew', 0, [2]], ['addnew', 1, [2]], ['addder', 3, [102, 103]]]),
+    ]
+    foreign = 1
+    cases = []
+    rng = R.subrng('malformed')
+    for name, mode, coords, ops in bases:
+        t = Tracker(mode, coords, POOL)
+        for op in ops:
+            t.do(op)
+        ids = t.ids('mdc')
+        n = len(ids)
+        symbols = ids + [foreign]
+        lists = []
+        if n <= 3:
+            for ln in range(max(1, n - 1), n + 2):
+                lists += [list(x) for x in itertools.product(symbols, repeat=ln)]
+        else:
+            lists += [list(x) for x in itertools.permutations(ids)]
+            dups = []
+            for i in range(n):          # one id left out, another one repeated, at every position
+                for j in range(n):
+                    if i != j:
+                        base = [x for x in ids if x != ids[i]]
+                        for pos in range(n):
+                            dups.append(base[:pos] + [ids[j]] + base[pos:])
+            lists += dups
+            lists += [ids[:-1], ids + [ids[0]], ids + [foreign], ids[:-1] + [foreign], []]
+            if R.quick() and len(lists) > 260:
+                lists = rng.sample(lists, 260)
+        for l in lists:
+            cases.append({'mode': mode, 'coords': coords, 'pool': POOL, 'ops': list(t.ops) + [['reorder', l]], 'base': name})
+        # update_components / add_component(link) with lists that contain a foreign id or a wrong shape at each position
+        m = t.ids('m')
+        sh = t.shape()
+        bad_sh = [x + 1 for x in sh]
+        for ents in ([[m[0], sh]], [[m[0], bad_sh]], [[foreign, sh]], [[m[0], sh], [foreign, sh]], [[foreign, sh], [m[0], sh]],
+                     [[m[0], sh], [m[-1], bad_sh]] if len(m) > 1 else [[m[0], bad_sh]]):
+            if len(set(e[0] for e in ents)) == len(ents):
+                cases.append({'mode': mode, 'coords': coords, 'pool': POOL, 'ops': list(t.ops) + [['updcomps', ents]], 'base': name})
+        # (an input-less link, BinaryComponentLink(1, 2, op), is a degenerate object the operators cannot build: the link manager
+        #  makes it derivable in every dataset of the collection; not generated)
+        for src in ([ids[0], foreign], [foreign], [foreign, ids[-1]], [ids[-1], ids[-1]]):
+            cases.append({'mode': mode, 'coords': coords, 'pool': POOL, 'ops': list(t.ops) + [['addder', 3, src]], 'base': name})
+    fl = []
+    for i in range(0, len(cases), 2000):
+        fl += evaluate(R, cases[i:i + 2000], 'malformed')
+    report(R, fl)
+    R.stream('malformed', cases=len(cases), exhaustive=True,
+             bound='5 base datasets; reorder_components with every list of length n-1..n+1 over the existing ids and one foreign id (n <= 3), '
+                   'or every permutation, every right-length list with one id left out and another repeated at every position, and wrong-length / '
+                   'foreign-id lists (n = 5); update_components mappings and add_component(link) input lists with a foreign id / wrong shape at each position')
+
+
 def run(R):
     label_tables()
     R.rule = ('a case is a concrete sequence of mutation calls (ids by number) on one Data object in one hub mode; non-trivial when '
               'it changes the structure or produces at least one message; distinct = distinct (mode, coordinates, concrete operation list)')
     stream_known(R)
+    stream_malformed(R)
     stream_exhaustive(R)
     stream_random(R)
 
